@@ -1,7 +1,73 @@
 import Rare.Base.Proto
+import Rare.Model.C12
 namespace Rare.Drv.C12
+open Rare Rare.C12 Rare.Proto
 
+def errName : CErr → String
+  | .unclosed => "unclosed"
+  | .sequential => "sequential"
+  | .conflict => "conflict"
+  | .fuel => "fuel"
+
+def specErrName : CompileErr → String
+  | .unclosed => "unclosed"
+  | .sequential => "sequential"
+  | .conflict => "conflict"
+
+def renderNames (m : List (Bytes × Nat)) : String :=
+  if m.isEmpty then "." else
+  let strs := m.map fun e => s!"{Hex.enc e.1}:{e.2}"
+  ",".intercalate (strs.mergeSort (fun a b => decide (a ≤ b)))
+
+def renderInts (l : List Int) : String := ",".intercalate (l.map toString)
+
+def renderRes (rs : List (Option (List Int))) : String :=
+  if rs.isEmpty then "." else
+  "|".intercalate (rs.map fun r => match r with | none => "-" | some l => renderInts l)
+
+/-- run all lines with one instance; per call keep the view and what it held when it was returned -/
+def runKeep : Instance → List Bytes → Except String (List (Option (View × List Int)) × Instance)
+  | s, [] => .ok ([], s)
+  | s, l :: ls =>
+    match findSubmatchIndex s l with
+    | .error e => .error e
+    | .ok (r, s) =>
+      match runKeep s ls with
+      | .error e => .error e
+      | .ok (rs, s') => .ok ((r.map fun v => (v, s.pool.read v)) :: rs, s')
+
+def cycle (l : List Bytes) (rep : Nat) : List Bytes := (List.replicate rep l).flatten
+
+/-- `dissect <ic> <pattern> <lines> <rep>`: compile, create ONE instance, match `lines` (the list
+repeated `rep` times), then re-read every returned slice after the last call. -/
 def handle : List String → String
+  | ["dissect", ic, pat, lines, rep] =>
+    match Hex.dec pat, decHexList lines, rep.toNat? with
+    | some pat, some lines, some rep =>
+      match compileEx pat (ic == "1") with
+      | .error e => s!"err {errName e}"
+      | .ok d =>
+        match runKeep d.createInstance (cycle lines rep) with
+        | .error _ => "panic"
+        | .ok (rs, s) =>
+          let final := rs.map fun r => r.map fun x => s.pool.read x.1
+          let atRet := rs.map fun r => r.map fun x => x.2
+          s!"ok n={renderNames d.groupNames} a={if final == atRet then 1 else 0} r={renderRes final}"
+    | _, _, _ => "bad-args"
+  -- the SPECIFICATION evaluated on a structured pattern (the Go side renders and compiles it)
+  | ["specp", ic, pre, keys, lits, lines, rep] =>
+    match Hex.dec pre, decHexList keys, decHexList lits, decHexList lines, rep.toNat? with
+    | some pre, some keys, some lits, some lines, some rep =>
+      if keys.length ≠ lits.length then "bad-args" else
+      let p : Pat := ⟨pre, (keys.zip lits).map fun kl => ⟨kl.1, kl.2⟩⟩
+      if ¬ (decide p.Shape) then "unmodelled shape" else
+      match specErrors false p.toks [] with
+      | some e => s!"err {specErrName e}"
+      | none =>
+        let f := if ic == "1" then specDissectIC p else specDissect p
+        let rs := (cycle lines rep).map fun l => (f l).map (·.map Int.ofNat)
+        s!"ok n={renderNames (nameTable p.toks)} a=1 r={renderRes rs}"
+    | _, _, _, _, _ => "bad-args"
   | _ => "bad-op"
 
 end Rare.Drv.C12
